@@ -254,7 +254,10 @@ def node_expand_metadata(c):
     c.ensures(post, "rows_unchanged_capacity_grown")
     c.ensures(lambda: z3.Or(c.result == 0, c.result == E.TSK_ERR_NO_MEMORY, c.result == E.TSK_ERR_COLUMN_OVERFLOW),
               "codes")
-    node_assigns(c, self_)
+    # frame: only the metadata buffer, its pointer and its capacity (rows past num_rows that a caller has already
+    # written into the other columns stay as they are)
+    c.assigns(self_, ["metadata", "max_metadata_length"])
+    c.assigns(h.get(self_, "metadata"))
 
 
 def appended(N, V, flags, time, population, individual, mdp, mdlen, h):
